@@ -26,6 +26,8 @@ pub struct World {
     /// verdicts of the independent covenant evaluation of the last `batch_oracles` call:
     /// (tx index, input index, Some(approved) or None when coin/covenant could not be resolved)
     pub approvals: Vec<(usize, usize, Option<bool>)>,
+    /// `env` lines of the last `batch_oracles` call: (operation, the heap `Executor::new_from_env` really builds)
+    pub env_lines: Vec<(String, String)>,
 }
 
 pub fn silent<T>(f: impl FnOnce() -> T) -> Result<T, ()> {
@@ -40,7 +42,7 @@ impl World {
         for (a, b) in [(Denom::Mel, Denom::Sym), (Denom::Mel, Denom::Erg), (Denom::Erg, Denom::Sym)] {
             names.reg_poolkey(PoolKey::new(a, b));
         }
-        World { db: Database::new(Cas::default()), unsealed: HashMap::new(), sealed: HashMap::new(), names, counter: 0, approvals: vec![] }
+        World { db: Database::new(Cas::default()), unsealed: HashMap::new(), sealed: HashMap::new(), names, counter: 0, approvals: vec![], env_lines: vec![] }
     }
 
     pub fn fresh(&mut self, prefix: &str) -> String {
@@ -145,6 +147,7 @@ impl World {
         // covenant-level oracle answers: evaluate every resolvable input's covenant independently
         let _ = hooks::take_log();
         self.approvals.clear();
+        self.env_lines.clear();
         if let Some(last) = self.last_header(s) {
             for (ti, tx) in txs.iter().enumerate() {
                 let scripts = tx.covenants_as_map();
@@ -154,6 +157,15 @@ impl World {
                         self.approvals.push((ti, idx, None));
                         continue;
                     };
+                    // the environment an input's covenant is shown: the heap the real executor builds (value.rs conversions,
+                    // slot layout) against the model's `heapOfEnv` (a few per batch)
+                    if self.env_lines.len() < 3 {
+                        let env = CovenantEnv { parent_coinid: *inp, parent_cdh: coin.clone(), spender_index: idx as u8, last_header: last };
+                        let tx2 = tx.clone();
+                        let heap = silent(move || melvm::VerifExecutor::new_from_env(vec![], tx2, Some(env)).heap);
+                        let op = format!("env {} {} {}@{} {} {}", tx_text(tx), coinid_text(inp), coindata_text(&coin.coin_data), coin.height.0, idx as u8, header_text(&last));
+                        self.env_lines.push((op, match heap { Ok(h) => format!("ok {}", crate::vmstreams::heap_text(&h)), Err(_) => "panic".into() }));
+                    }
                     let Some(script) = scripts.get(&coin.coin_data.covhash) else {
                         self.approvals.push((ti, idx, None));
                         continue;
@@ -236,6 +248,12 @@ pub fn synth_header(network: NetID, height: u64, dosc_speed: u128) -> Header {
 impl World {
     /// builds the trees through the public API and restores a sealed state from a hand-made block
     pub fn fabricate(&mut self, spec: &FabSpec) -> (SealedState<Cas>, String) {
+        self.fabricate_with(spec, None)
+    }
+
+    /// like `fabricate`; with `carried` the state gets that very stake-set object (whatever bookkeeping it has accumulated
+    /// through `add_stake` / `unlock_old`) instead of one built afresh from the list - the list in `spec` must be its content
+    pub fn fabricate_with(&mut self, spec: &FabSpec, carried: Option<StakeSet>) -> (SealedState<Cas>, String) {
         let empty = self.db.get_tree(HashVal::default().0).unwrap();
         let t906 = tip906_active(spec.network, spec.height);
         let mut coins = CoinMapping::new(empty.clone());
@@ -256,7 +274,7 @@ impl World {
             hist.insert(BlockHeight(*h), hdr);
             hist_text.push(format!("{}@{}", header_text(&hdr), hx(&hdr.hash().0)));
         }
-        let stakes = StakeSet::new(spec.stakes.iter().cloned());
+        let stakes = carried.unwrap_or_else(|| StakeSet::new(spec.stakes.iter().cloned()));
         let header = Header {
             network: spec.network,
             previous: HashVal::default(),
